@@ -22,7 +22,7 @@ const dir = "pkg/ipam/schedulerplugin/"
 func gen(repo string) (map[string]string, error) {
 	var b strings.Builder
 	b.WriteString(fg.Header("constants and structural facts of the scheduler plugin (model M4-core)",
-		dir+"bind.go", "pkg/ipam/floatingip/ipam_crd.go", dir+"resync.go", dir+"filter.go", dir+"event.go", dir+"util/utils.go", "pkg/api/galaxy/constant/constant.go"))
+		dir+"bind.go", "pkg/ipam/floatingip/ipam_crd.go", "pkg/ipam/floatingip/store_crd.go", dir+"resync.go", dir+"filter.go", dir+"event.go", dir+"util/utils.go", "pkg/api/galaxy/constant/constant.go"))
 	b.WriteString("namespace Galaxy.Generated.Plugin\n\n")
 
 	// ---- constants
@@ -125,11 +125,20 @@ func gen(repo string) (map[string]string, error) {
 		}
 		return NormaliseFunc(fd, []*fg.Parsed{p}), nil
 	}
+	sc, err := fg.ParseFile(repo, "pkg/ipam/floatingip/store_crd.go")
+	if err != nil {
+		return nil, err
+	}
 	f, err := facts(trace, bd, rs, fl, fp, pf, ic, ev)
 	if err != nil {
 		return nil, err
 	}
 	b.WriteString(f)
+	tl, err := trace(sc, "crdIpam", "listFloatingIPs")
+	if err != nil {
+		return nil, err
+	}
+	fmt.Fprintf(&b, "/-- listFloatingIPs (ConfigurePool's view of the store) is a LIST against the API server: no informer / lister is consulted -/\ndef reloadListsApiserver : Bool := %s\n", fg.LeanBool(listsApiserver(tl)))
 	b.WriteString("\nend Galaxy.Generated.Plugin\n")
 	return map[string]string{"Plugin.lean": b.String()}, nil
 }
